@@ -80,7 +80,13 @@ fn idx_of(nodes: &[Node], pk: &PublicKey) -> Option<usize> {
 struct Seen {
 	/// events of every node, in the order they were fetched
 	events: Vec<Vec<Event>>,
+	/// payment hash of every HTLC offered to a node: (node, channel, htlc id)
+	htlc_hash: std::collections::HashMap<(usize, ChannelId, u64), PaymentHash>,
 }
+
+/// update_fulfill_htlc messages whose preimage does not hash to the payment hash of the HTLC they
+/// fulfil (any node, any scenario); checked after every scenario
+static BAD_FULFILLS: std::sync::atomic::AtomicUsize = std::sync::atomic::AtomicUsize::new(0);
 
 /// Delivers every pending peer message until nothing is pending any more. `drop(from, to, ev)`
 /// decides whether a message event is lost. Events of all nodes are fetched (= handled by the
@@ -118,9 +124,14 @@ fn pump(nodes: &[Node], seen: &mut Seen, drop_msg: &dyn Fn(usize, usize, &Messag
 				match ev {
 					MessageSendEvent::UpdateHTLCs { updates, .. } => {
 						for m in updates.update_add_htlcs.iter() {
+							seen.htlc_hash.insert((to, m.channel_id, m.htlc_id), m.payment_hash);
 							n.handle_update_add_htlc(from, m);
 						}
 						for m in updates.update_fulfill_htlcs.iter() {
+							let got = Sha256::hash(&m.payment_preimage.0).to_byte_array();
+							if seen.htlc_hash.get(&(i, m.channel_id, m.htlc_id)).map(|h| h.0 != got).unwrap_or(true) {
+								BAD_FULFILLS.fetch_add(1, std::sync::atomic::Ordering::SeqCst);
+							}
 							n.handle_update_fulfill_htlc(from, m.clone());
 						}
 						for m in updates.update_fail_htlcs.iter() {
@@ -638,6 +649,10 @@ fn run_one(name: &str, a: u64, b: u64, c: u64) -> Out {
 	match r {
 		Ok(mut o) => {
 			o.params = format!("{} {} {} {}", name, a, b, c);
+			let bad = BAD_FULFILLS.swap(0, std::sync::atomic::Ordering::SeqCst);
+			if bad > 0 {
+				o.fail("an update_fulfill_htlc carried a preimage that does not hash to the HTLC's payment hash");
+			}
 			o
 		},
 		Err(e) => {
